@@ -74,3 +74,23 @@ Theorem C14_not_connected_after_any_history : forall ops,
   (clife_run clife0 ops ++ [if connected_after false ops then LExchange else LErr])%list.
 Proof. exact clife_send_after. Qed.
 Print Assumptions C14_not_connected_after_any_history.
+
+(* ---- "any bytes, cut off anywhere", delivered in any way: the Client's Decoder on its bufio.Reader over a connection
+   that hands out the reply in ANY script of read sizes (fewer than 100 consecutive empty reads) ---- *)
+Require Import Readers ReadersProofs ClientReaders.
+
+(* the peer closes after its reply: Send returns exactly what the flat model (all theorems above) says for those bytes *)
+Theorem C14_reply_fragmentation_independent : forall T K c op payload conn,
+  transport_ok conn -> b_term conn = EOF ->
+  c_send T K c op payload conn = send T K c op payload (b_data conn).
+Proof. exact client_fragmentation_independent. Qed.
+Print Assumptions C14_reply_fragmentation_independent.
+
+(* the connection fails instead (reset, deadline: an I/O error at any offset): a payload or a server error is returned only
+   if the bytes that did arrive are a complete reply saying so; a reply cut off by the failure yields an error *)
+Theorem C14_cut_off_reply_safe : forall T K c op payload conn evs r,
+  transport_ok conn ->
+  c_send T K c op payload conn = (evs, r) -> r <> SError ->
+  send T K c op payload (b_data conn) = (evs, r).
+Proof. exact client_io_error_safe. Qed.
+Print Assumptions C14_cut_off_reply_safe.
